@@ -1665,6 +1665,10 @@ def gen_if_stmt(node, code, codegen):
 def gen_input(node, code, codegen):
     code.add_string_literal(node.prompt.value)
 
+    for var in node.var_list:
+        if var.implicit_decl and var.implicit_decl.type.is_array:
+            gen_static_array_init(var.implicit_decl, code, codegen)
+
     same_line = -1 if node.same_line else 0
     prompt_question = -1 if node.prompt_question else 0
     code.add(('push%', same_line))
@@ -1772,6 +1776,8 @@ def gen_randomize(node, code, codegen):
 @QvmCodeGen.generator_for(stmt.ReadStmt)
 def gen_read_stmt(node, code, codegen):
     for var in node.var_list:
+        if var.implicit_decl and var.implicit_decl.type.is_array:
+            gen_static_array_init(var.implicit_decl, code, codegen)
         code.add(('push%', var.type.type_id))
         code.add(('io', 'data', 'read'))
         gen_lvalue_write(var, code, codegen)
